@@ -2,295 +2,666 @@ package main
 
 import (
 	"fmt"
-	"go/token"
+	"go/types"
 	"strings"
-
-	"golang.org/x/tools/go/ssa"
 )
 
 func init() {
 	register(&propDef{
 		id: "C28", run: runC28, minOblig: 20,
-		explanation: "Decides RFC 4253 section 7.1 negotiation structure: (findCommon) the algorithm returned on success is an element loaded from the CLIENT list, the return lies behind the equality test of that element with an element of the SERVER list, the client loop is the outer loop and both indices run over all elements in increasing order — hence the first client entry also offered by the server; (findAgreedAlgorithms) each of the 8 findCommon calls takes field F of the client KEXINIT as list 1 and the same field F of the server KEXINIT as list 2, and its result is stored into the slot prescribed for F: client-to-server fields into the record that is Write for a client and Read for a server, server-to-client fields into the opposite record (direction resolved by evaluating the isClient branch); each MAC negotiation is reachable exactly when the aeadCiphers lookup on the cipher of the SAME direction is false, independent of the other direction (finite-domain evaluation over both lookups); every failed negotiation returns the error. NOT decided: nothing numeric is involved.",
-		assumptions: []string{"kexInitMsg field names reflect RFC 4253 field order (checked under C24 against the wire tags)"},
+		explanation: "Decides RFC 4253 section 7.1 negotiation by EVALUATING the SSA of ssh.findCommon and ssh.findAgreedAlgorithms (with every function they reach: helpers, closures, instantiated generics such as slices.Contains, package-level tables such as aeadCiphers rebuilt from the package initializer) on concrete inputs and comparing the outcome with the RFC rule computed independently in the checker; nothing is matched against the shape of the code. (findCommon) for ALL pairs of client/server lists of length <= 3 over a 3-letter alphabet and both roles: on success the returned algorithm is an entry of the client's list (findcommon-result) that the server also offers, and the call fails exactly when no entry is common (findcommon-match); it is the FIRST such client entry (findcommon-order); a failure is an *AlgorithmNegotiationError whose SupportedAlgorithms/RequestedAlgorithms are the own/peer lists for the given role (findcommon-errlabel). (findAgreedAlgorithms) for both roles over two families of KEXINIT pairs — the full product of {no common entry, client-preferred entry wins} for kex, host key, both MAC and both compression lists with {no common, AES128-GCM, AES256-GCM, ChaCha20-Poly1305, AES-CTR wins} for each cipher direction, and every pair of lists of length <= 2 over a 3-letter alphabet for one field at a time on two base messages —: each of KeyExchange, HostKey and Cipher/MAC/compression of both directions holds the first entry of the client's list of exactly that KEXINIT field that the server's list of the same field contains, client-to-server values in Write for a client and in Read for a server, server-to-client values in the opposite record (agreed-value); the MAC of a direction is negotiated exactly when the cipher chosen for THAT direction is not one of the three AEAD ciphers, otherwise it stays empty and its lists are irrelevant (mac-gate); the call fails exactly when a required negotiation has no common entry (agreed-fail), with the error labelled for the role (agreed-errlabel); the client's and the server's computation on the same two messages both fail or agree on every algorithm with Read and Write exchanged (agreed-symmetric). An evaluation that meets something outside the model (concurrency, floating point, a branch on the result of a function without body or of a function outside the module and the pure helper packages slices/maps/strings/bytes/sort/cmp/strconv — such calls are not followed) is reported as undecided. NOT decided: lists longer than 3 (findCommon) / outside the two families (findAgreedAlgorithms); the text of the error.",
+		assumptions: []string{
+			"kexInitMsg field names reflect RFC 4253 field order (checked under C24 against the wire tags)",
+			"findCommon takes the client's list before the server's list and findAgreedAlgorithms the client's KEXINIT before the server's (parameter order is the contract with the callers)",
+			"package-level tables keep the value given by their initializer (aeadCiphers is never written after init)",
+		},
 	})
-	tech("C28", "SSA provenance of the returned element, loop-nesting structure, argument/destination table agreement, finite-domain evaluation of the AEAD/MAC gates")
+	tech("C28", "concrete evaluation of the SSA of findCommon / findAgreedAlgorithms (interprocedural, including closures and instantiated generics) over finite families of KEXINIT list pairs, compared with RFC 4253 section 7.1 computed in the checker")
 }
 
-func runC28(c *Ctx) {
-	// ---------------- findCommon
-	if f := c.fn("ssh", "findCommon"); f != nil {
-		client, server := param(f, "client"), param(f, "server")
-		if client == nil || server == nil {
-			if len(f.Params) >= 3 {
-				client, server = f.Params[1], f.Params[2]
+var c28fields = [8]string{"KexAlgos", "ServerHostKeyAlgos", "CiphersClientServer", "CiphersServerClient",
+	"MACsClientServer", "MACsServerClient", "CompressionClientServer", "CompressionServerClient"}
+
+// slot of field k: record ("" = NegotiatedAlgorithms itself, "ctos", "stoc") and field
+var c28slots = [8][2]string{{"", "KeyExchange"}, {"", "HostKey"}, {"ctos", "Cipher"}, {"stoc", "Cipher"},
+	{"ctos", "MAC"}, {"stoc", "MAC"}, {"ctos", "compression"}, {"stoc", "compression"}}
+
+// ground truth, independent of the code under test (RFC 5647, openssh PROTOCOL.chacha20poly1305)
+var c28aead = map[string]bool{"aes128-gcm@openssh.com": true, "aes256-gcm@openssh.com": true, "chacha20-poly1305@openssh.com": true}
+
+func c28firstCommon(client, server []string) (string, bool) {
+	for _, c := range client {
+		for _, s := range server {
+			if c == s {
+				return c, true
 			}
-		}
-		loadOf := func(v ssa.Value) (base ssa.Value, idx ssa.Value, ok bool) {
-			u, isU := v.(*ssa.UnOp)
-			if !isU || u.Op != token.MUL {
-				return nil, nil, false
-			}
-			ia, isIA := u.X.(*ssa.IndexAddr)
-			if !isIA {
-				return nil, nil, false
-			}
-			return ia.X, ia.Index, true
-		}
-		succ := retTargets(f, func(r *ssa.Return) bool { return errNilness(r.Results[1], r.Block(), 0) != neverNil })
-		okAll := len(succ) > 0
-		for _, r := range succ {
-			b, idx, ok := loadOf(r.Results[0])
-			if !ok || b != ssa.Value(client) {
-				c.fail("C28.findcommon-result", "findCommon success return", r, "the algorithm returned on success is not an element of the client's list")
-				okAll = false
-				continue
-			}
-			// equality gate: this value == element of server list
-			var eq []edge
-			var sidx ssa.Value
-			allInstrs(f, func(in ssa.Instruction) {
-				bo, isB := in.(*ssa.BinOp)
-				if !isB || (bo.Op != token.EQL && bo.Op != token.NEQ) {
-					return
-				}
-				for _, pr := range [][2]ssa.Value{{bo.X, bo.Y}, {bo.Y, bo.X}} {
-					b1, i1, ok1 := loadOf(pr[0])
-					b2, i2, ok2 := loadOf(pr[1])
-					if ok1 && ok2 && b1 == ssa.Value(client) && i1 == idx && b2 == ssa.Value(server) {
-						y, _ := boolEdges(bo, bo.Op == token.EQL)
-						eq = append(eq, y...)
-						sidx = i2
-					}
-				}
-			})
-			if !c.mustCross("C28.findcommon-match", "findCommon success return", f, []ssa.Instruction{r}, eq, "client[i] == server[j]") {
-				okAll = false
-				continue
-			}
-			// loop structure
-			ci, ok1 := idx.(*ssa.BinOp)
-			si, ok2 := sidx.(*ssa.BinOp)
-			var cphi, sphi *ssa.Phi
-			if ok1 && ok2 && ci.Op == token.ADD && si.Op == token.ADD {
-				cphi, _ = ci.X.(*ssa.Phi)
-				sphi, _ = si.X.(*ssa.Phi)
-			} else {
-				cphi, _ = idx.(*ssa.Phi)
-				sphi, _ = sidx.(*ssa.Phi)
-			}
-			if cphi == nil || sphi == nil {
-				c.fail("C28.findcommon-order", "findCommon loops", f, "index variables of the client/server loops not recognised")
-				okAll = false
-				continue
-			}
-			incOK := func(p *ssa.Phi) bool {
-				seenInit, seenInc := false, false
-				for _, e := range p.Edges {
-					if k, ok := constInt(e); ok && (k == -1 || k == 0) {
-						seenInit = true
-						continue
-					}
-					if bo, ok := e.(*ssa.BinOp); ok && bo.Op == token.ADD && bo.X == ssa.Value(p) {
-						if k, ok := constInt(bo.Y); ok && k == 1 {
-							seenInc = true
-							continue
-						}
-					}
-					return false
-				}
-				return seenInit && seenInc
-			}
-			outer := cphi.Block().Dominates(sphi.Block()) && cphi.Block() != sphi.Block() && reach([]*ssa.BasicBlock{sphi.Block()}, nil)[cphi.Block()]
-			c.check(outer && incOK(cphi) && incOK(sphi), "C28.findcommon-order", "findCommon loops", cphi,
-				"client list is the outer loop; both indices start at the first element and advance by one", "loop nesting or index progression changed: the result is no longer the first client entry supported by the server")
-		}
-		if okAll {
-			c.ok("C28.findcommon-result", "findCommon success return", succ[0], "returns client[i] for the first i with client[i] == server[j]")
 		}
 	}
+	return "", false
+}
 
-	// ---------------- findAgreedAlgorithms
+func c28contains(l []string, s string) bool {
+	for _, x := range l {
+		if x == s {
+			return true
+		}
+	}
+	return false
+}
+
+func c28strs(l []string) c28val {
+	if len(l) == 0 {
+		return []c28val(nil)
+	}
+	out := make([]c28val, len(l))
+	for i, s := range l {
+		out[i] = s
+	}
+	return out
+}
+
+func c28goStrs(v c28val) ([]string, bool) {
+	s, ok := v.([]c28val)
+	if !ok {
+		return nil, false
+	}
+	var out []string
+	for _, e := range s {
+		str, ok := e.(string)
+		if !ok {
+			return nil, false
+		}
+		out = append(out, str)
+	}
+	return out, true
+}
+
+func c28sameList(a, b []string) bool {
+	if len(a) != len(b) {
+		return false
+	}
+	for i := range a {
+		if a[i] != b[i] {
+			return false
+		}
+	}
+	return true
+}
+
+// all lists of length <= n over the alphabet
+func c28lists(alpha []string, n int) [][]string {
+	out := [][]string{nil}
+	prev := [][]string{nil}
+	for l := 1; l <= n; l++ {
+		var cur [][]string
+		for _, p := range prev {
+			for _, a := range alpha {
+				cur = append(cur, append(append([]string(nil), p...), a))
+			}
+		}
+		out = append(out, cur...)
+		prev = cur
+	}
+	return out
+}
+
+func c28fieldIndex(st *types.Struct, name string) int {
+	for i := 0; i < st.NumFields(); i++ {
+		if st.Field(i).Name() == name {
+			return i
+		}
+	}
+	return -1
+}
+
+// c28errLabels reads SupportedAlgorithms / RequestedAlgorithms of a failure
+// reported as *AlgorithmNegotiationError.
+func c28errLabels(err c28iface) (supported, requested []string, ok bool) {
+	pt, isP := err.t.(*types.Pointer)
+	if !isP {
+		return nil, nil, false
+	}
+	named, isN := pt.Elem().(*types.Named)
+	if !isN || named.Obj().Name() != "AlgorithmNegotiationError" {
+		return nil, nil, false
+	}
+	st, isS := named.Underlying().(*types.Struct)
+	p, isPtr := err.v.(*c28val)
+	if !isS || !isPtr || p == nil {
+		return nil, nil, false
+	}
+	val, isV := (*p).(c28struct)
+	si, ri := c28fieldIndex(st, "SupportedAlgorithms"), c28fieldIndex(st, "RequestedAlgorithms")
+	if !isV || si < 0 || ri < 0 {
+		return nil, nil, false
+	}
+	supported, ok1 := c28goStrs(val[si])
+	requested, ok2 := c28goStrs(val[ri])
+	return supported, requested, ok1 && ok2
+}
+
+type c28tally struct {
+	order []string
+	first map[string]string
+}
+
+func (t *c28tally) fail(rule, construct, detail string) {
+	k := rule + "\x00" + construct
+	if t.first == nil {
+		t.first = map[string]string{}
+	}
+	if _, seen := t.first[k]; !seen {
+		t.first[k] = detail
+		t.order = append(t.order, k)
+	}
+}
+
+func (t *c28tally) get(rule, construct string) string { return t.first[rule+"\x00"+construct] }
+
+func runC28(c *Ctx) {
+	it := c28newInterp(c.ld.prog)
+	c28checkFindCommon(c, it)
+	c28checkAgreed(c, it)
+}
+
+func c28role(isClient bool) string {
+	if isClient {
+		return "client"
+	}
+	return "server"
+}
+
+// ---------------------------------------------------------------- findCommon
+
+func c28checkFindCommon(c *Ctx, it *c28interp) {
+	f := c.fn("ssh", "findCommon")
+	if f == nil {
+		return
+	}
+	var listIdx, strIdx []int
+	boolIdx := -1
+	for i, p := range f.Params {
+		switch t := p.Type().Underlying().(type) {
+		case *types.Slice:
+			if b, ok := t.Elem().Underlying().(*types.Basic); ok && b.Kind() == types.String {
+				listIdx = append(listIdx, i)
+			}
+		case *types.Basic:
+			if t.Kind() == types.Bool {
+				boolIdx = i
+			} else if t.Kind() == types.String {
+				strIdx = append(strIdx, i)
+			}
+		}
+	}
+	res := f.Signature.Results()
+	if len(listIdx) != 2 || res.Len() != 2 || len(listIdx)+len(strIdx)+c28btoi(boolIdx >= 0) != len(f.Params) {
+		c.fail("anchor", "ssh.findCommon", f, "signature is no longer (label, client list, server list, role) -> (algorithm, error); the rule cannot be evaluated")
+		return
+	}
+	var t c28tally
+	const construct = "findCommon"
+	lists := c28lists([]string{"alg-a", "alg-b", "alg-c"}, 3)
+	runs := 0
+	for _, cl := range lists {
+		for _, sv := range lists {
+			for _, isClient := range []bool{true, false} {
+				if boolIdx < 0 && !isClient {
+					continue
+				}
+				args := make([]c28val, len(f.Params))
+				for _, i := range strIdx {
+					args[i] = "test list"
+				}
+				args[listIdx[0]], args[listIdx[1]] = c28strs(cl), c28strs(sv)
+				if boolIdx >= 0 {
+					args[boolIdx] = isClient
+				}
+				r, end, why := it.run(f, args)
+				runs++
+				in := fmt.Sprintf("client list %q, server list %q, role %s", cl, sv, c28role(isClient))
+				if end == "undecided" {
+					c.undecided("C28.findcommon-result", construct, f, "evaluation left the model for "+in+": "+why)
+					return
+				}
+				if end == "panic" {
+					t.fail("C28.findcommon-match", construct, why+" — "+in)
+					continue
+				}
+				tup, ok := r.(c28tuple)
+				if !ok || len(tup) != 2 {
+					c.undecided("C28.findcommon-result", construct, f, "result is not (algorithm, error)")
+					return
+				}
+				got, okS := tup[0].(string)
+				err, okE := tup[1].(c28iface)
+				if !okS || !okE {
+					c.undecided("C28.findcommon-result", construct, f, "result for "+in+" is not a known string and error")
+					return
+				}
+				want, common := c28firstCommon(cl, sv)
+				switch {
+				case common && err.t != nil:
+					t.fail("C28.findcommon-match", construct, fmt.Sprintf("fails although %q is offered by both sides — %s", want, in))
+				case common && got != want && !c28contains(cl, got):
+					t.fail("C28.findcommon-result", construct, fmt.Sprintf("returns %q, which is not an entry of the client's list — %s", got, in))
+				case common && got != want && !c28contains(sv, got):
+					t.fail("C28.findcommon-match", construct, fmt.Sprintf("returns the client entry %q that the server does not offer — %s", got, in))
+				case common && got != want:
+					t.fail("C28.findcommon-order", construct, fmt.Sprintf("returns %q, but the first entry of the client's list that the server also offers is %q (the client's order of preference is not followed) — %s", got, want, in))
+				case !common && err.t == nil:
+					t.fail("C28.findcommon-match", construct, fmt.Sprintf("no common entry, yet %q is returned without error — %s", got, in))
+				case !common:
+					sup, req, ok := c28errLabels(err)
+					own, peer := cl, sv
+					if !isClient {
+						own, peer = sv, cl
+					}
+					if !ok {
+						t.fail("C28.findcommon-errlabel", construct, "the failure is not reported as *AlgorithmNegotiationError with SupportedAlgorithms and RequestedAlgorithms — "+in)
+					} else if !c28sameList(sup, own) || !c28sameList(req, peer) {
+						t.fail("C28.findcommon-errlabel", construct, fmt.Sprintf("error says supported %q / requested %q; for this role the own list is %q and the peer's %q — %s", sup, req, own, peer, in))
+					}
+				}
+			}
+		}
+	}
+	n := fmt.Sprintf(" (%d evaluations: all list pairs of length <= 3 over 3 names, both roles)", runs)
+	c.check(t.get("C28.findcommon-result", construct) == "", "C28.findcommon-result", construct, f, "the algorithm returned on success is an entry of the client's list"+n, t.get("C28.findcommon-result", construct))
+	c.check(t.get("C28.findcommon-match", construct) == "", "C28.findcommon-match", construct, f, "succeeds exactly when some client entry is also offered by the server, and returns such an entry"+n, t.get("C28.findcommon-match", construct))
+	c.check(t.get("C28.findcommon-order", construct) == "", "C28.findcommon-order", construct, f, "the result is the FIRST client entry the server offers, whatever the server's order"+n, t.get("C28.findcommon-order", construct))
+	c.check(t.get("C28.findcommon-errlabel", construct) == "", "C28.findcommon-errlabel", construct, f, "a failure names the own list as supported and the peer's as requested for the role"+n, t.get("C28.findcommon-errlabel", construct))
+}
+
+func c28btoi(b bool) int {
+	if b {
+		return 1
+	}
+	return 0
+}
+
+// ------------------------------------------------------ findAgreedAlgorithms
+
+type c28scenario struct{ cl, sv [8][]string }
+
+// c28outcome is what one evaluation (one role) produced.
+type c28outcome struct {
+	failed bool
+	err    c28iface
+	got    [8]string // by RFC slot (ctos/stoc resolved for the role)
+}
+
+func c28checkAgreed(c *Ctx, it *c28interp) {
 	f := c.fn("ssh", "findAgreedAlgorithms")
 	if f == nil {
 		return
 	}
-	isClient, cli, srv := f.Params[0], f.Params[1], f.Params[2]
-	type slot struct{ rec, field string }
-	want := map[string]slot{
-		"KexAlgos":                {"result", "KeyExchange"},
-		"ServerHostKeyAlgos":      {"result", "HostKey"},
-		"CiphersClientServer":     {"ctos", "Cipher"},
-		"CiphersServerClient":     {"stoc", "Cipher"},
-		"MACsClientServer":        {"ctos", "MAC"},
-		"MACsServerClient":        {"stoc", "MAC"},
-		"CompressionClientServer": {"ctos", "compression"},
-		"CompressionServerClient": {"stoc", "compression"},
+	// signature by type: one bool (role), two pointers to the KEXINIT struct (client first)
+	boolIdx := -1
+	var msgIdx []int
+	var msgT *types.Struct
+	for i, p := range f.Params {
+		if b, ok := p.Type().Underlying().(*types.Basic); ok && b.Kind() == types.Bool {
+			boolIdx = i
+		} else if st := derefStruct(p.Type()); st != nil {
+			if _, isPtr := p.Type().Underlying().(*types.Pointer); isPtr {
+				msgIdx = append(msgIdx, i)
+				msgT = st
+			}
+		}
 	}
-	// resolve a record pointer to "Write"/"Read" for isClient=1 and 0
-	recName := func(v ssa.Value, ic int64) string {
-		switch x := v.(type) {
-		case *ssa.FieldAddr:
-			_, fld, _, _ := fieldOf(x)
-			return fld
-		case *ssa.Phi:
-			e := newEnv()
-			e.bind(isClient, ic)
-			e.solve(f)
-			name := ""
-			for i, ed := range x.Edges {
-				pred := x.Block().Preds[i]
-				if e.reach[pred] && e.edgeFeasible(pred, x.Block()) {
-					if fa, ok := ed.(*ssa.FieldAddr); ok {
-						_, fld, _, _ := fieldOf(fa)
-						if name != "" && name != fld {
-							return "?"
+	res := f.Signature.Results()
+	var resT *types.Struct
+	if res.Len() == 2 {
+		resT = derefStruct(res.At(0).Type())
+	}
+	if boolIdx < 0 || len(msgIdx) != 2 || len(f.Params) != 3 || resT == nil {
+		c.fail("anchor", "ssh.findAgreedAlgorithms", f, "signature is no longer (role, client KEXINIT, server KEXINIT) -> (*NegotiatedAlgorithms, error); the rule cannot be evaluated")
+		return
+	}
+	var inIdx [8]int
+	for k, name := range c28fields {
+		inIdx[k] = c28fieldIndex(msgT, name)
+		if inIdx[k] < 0 {
+			c.fail("anchor", "ssh.kexInitMsg."+name, f, "KEXINIT field not found; the rule cannot be evaluated")
+			return
+		}
+	}
+	iKex, iHost, iRead, iWrite := c28fieldIndex(resT, "KeyExchange"), c28fieldIndex(resT, "HostKey"), c28fieldIndex(resT, "Read"), c28fieldIndex(resT, "Write")
+	var dirT *types.Struct
+	if iRead >= 0 {
+		dirT, _ = resT.Field(iRead).Type().Underlying().(*types.Struct)
+	}
+	if iKex < 0 || iHost < 0 || iRead < 0 || iWrite < 0 || dirT == nil {
+		c.fail("anchor", "ssh.NegotiatedAlgorithms", f, "fields KeyExchange/HostKey/Read/Write not found; the rule cannot be evaluated")
+		return
+	}
+	iCipher, iMAC, iComp := c28fieldIndex(dirT, "Cipher"), c28fieldIndex(dirT, "MAC"), c28fieldIndex(dirT, "compression")
+	if iCipher < 0 || iMAC < 0 || iComp < 0 {
+		c.fail("anchor", "ssh.DirectionAlgorithms", f, "fields Cipher/MAC/compression not found; the rule cannot be evaluated")
+		return
+	}
+	langCS, langSC := c28fieldIndex(msgT, "LanguagesClientServer"), c28fieldIndex(msgT, "LanguagesServerClient")
+
+	mkMsg := func(lists [8][]string, side string) c28val {
+		m := c28zero(msgT).(c28struct)
+		for k := range lists {
+			m[inIdx[k]] = c28strs(lists[k])
+		}
+		// the language lists are not negotiated; a value that turns up in a result is a wiring error
+		if langCS >= 0 {
+			m[langCS] = c28strs([]string{"lang-" + side, "lang-x"})
+		}
+		if langSC >= 0 {
+			m[langSC] = c28strs([]string{"lang-x", "lang-" + side})
+		}
+		p := new(c28val)
+		*p = m
+		return p
+	}
+
+	undecided := ""
+	eval := func(sc *c28scenario, isClient bool) (out c28outcome, panicked string) {
+		args := make([]c28val, 3)
+		args[boolIdx] = isClient
+		args[msgIdx[0]], args[msgIdx[1]] = mkMsg(sc.cl, "c"), mkMsg(sc.sv, "s")
+		r, end, why := it.run(f, args)
+		if end == "undecided" {
+			undecided = why
+			return
+		}
+		if end == "panic" {
+			return out, why
+		}
+		tup, ok := r.(c28tuple)
+		if !ok || len(tup) != 2 {
+			undecided = "result is not (*NegotiatedAlgorithms, error)"
+			return
+		}
+		err, okE := tup[1].(c28iface)
+		ptr, okP := tup[0].(*c28val)
+		if !okE || !okP {
+			undecided = "result is not a known pointer and error"
+			return
+		}
+		out.err = err
+		if err.t != nil {
+			out.failed = true
+			return
+		}
+		if ptr == nil {
+			return out, "returns (nil, nil)"
+		}
+		top, ok := (*ptr).(c28struct)
+		if !ok {
+			undecided = "result record outside the model"
+			return
+		}
+		ctos, stoc := top[iRead].(c28struct), top[iWrite].(c28struct)
+		if isClient {
+			ctos, stoc = stoc, ctos
+		}
+		vals := [8]c28val{top[iKex], top[iHost], ctos[iCipher], stoc[iCipher], ctos[iMAC], stoc[iMAC], ctos[iComp], stoc[iComp]}
+		for k, v := range vals {
+			s, ok := v.(string)
+			if !ok {
+				undecided = "negotiated " + c28fields[k] + " value is not a known string"
+				return
+			}
+			out.got[k] = s
+		}
+		return out, ""
+	}
+
+	var t c28tally
+	const whole = "findAgreedAlgorithms"
+	slotName := func(k int, isClient bool) string {
+		rec := c28slots[k][0]
+		switch {
+		case rec == "":
+			return c28slots[k][1]
+		case (rec == "ctos") == isClient:
+			return "Write." + c28slots[k][1]
+		}
+		return "Read." + c28slots[k][1]
+	}
+	runs := 0
+	check := func(sc *c28scenario) bool {
+		// RFC 4253 section 7.1 (+ AEAD rule)
+		var want [8]string
+		var common, needed [8]bool
+		for k := range c28fields {
+			want[k], common[k] = c28firstCommon(sc.cl[k], sc.sv[k])
+			needed[k] = true
+		}
+		needed[4], needed[5] = !c28aead[want[2]], !c28aead[want[3]]
+		var failing []int
+		for k := range c28fields {
+			if !needed[k] {
+				want[k] = ""
+			} else if !common[k] && !((k == 4 && !common[2]) || (k == 5 && !common[3])) {
+				failing = append(failing, k)
+			}
+		}
+		var outs [2]c28outcome
+		for ri, isClient := range []bool{true, false} {
+			out, panicked := eval(sc, isClient)
+			runs++
+			if undecided != "" {
+				return false
+			}
+			outs[ri] = out
+			in := fmt.Sprintf("role %s, client KEXINIT %s, server KEXINIT %s", c28role(isClient), c28show(sc.cl), c28show(sc.sv))
+			if panicked != "" {
+				t.fail("C28.agreed-fail", whole, panicked+" — "+in)
+				continue
+			}
+			switch {
+			case len(failing) > 0 && !out.failed:
+				for _, k := range failing {
+					d := fmt.Sprintf("the lists of %s have no common entry, yet the negotiation succeeds (%s = %q)", c28fields[k], slotName(k, isClient), out.got[k])
+					if k == 4 || k == 5 {
+						d += fmt.Sprintf("; the %s cipher %q is not an AEAD, so a MAC is required", c28slots[k][0], want[k-2])
+					}
+					t.fail("C28.agreed-fail", c28fields[k], d+" — "+in)
+				}
+			case len(failing) == 0 && out.failed:
+				blamed := false
+				// the error itself tells which negotiation failed (when it carries the lists)
+				culprit := -1
+				if sup, req, ok := c28errLabels(out.err); ok {
+					for _, k := range []int{4, 5} {
+						if (c28sameList(sup, sc.cl[k]) && c28sameList(req, sc.sv[k])) || (c28sameList(sup, sc.sv[k]) && c28sameList(req, sc.cl[k])) {
+							culprit = k
 						}
-						name = fld
 					}
 				}
-			}
-			return name
-		}
-		return ""
-	}
-	callsFC := callsNamed(f, "ssh.findCommon")
-	c.check(len(callsFC) == 8, "C28.agreed-calls", "findAgreedAlgorithms", f, "8 negotiations", fmt.Sprintf("expected 8 findCommon calls, found %d", len(callsFC)))
-	macCalls := map[string]*ssa.Call{}
-	recOf := map[string]ssa.Value{} // "ctos"/"stoc" -> pointer value
-	for _, ci := range callsFC {
-		call := ci.(*ssa.Call)
-		_, f1, b1, ok1 := fieldOf(call.Call.Args[1])
-		_, f2, b2, ok2 := fieldOf(call.Call.Args[2])
-		name := "findCommon(" + f1 + ")"
-		if !ok1 || !ok2 || f1 != f2 || b1 != ssa.Value(cli) || b2 != ssa.Value(srv) {
-			c.fail("C28.agreed-args", name, call, fmt.Sprintf("lists are %s of %s and %s of %s; must be the same field of the client and the server KEXINIT, in that order", f1, valName(b1), f2, valName(b2)))
-			continue
-		}
-		c.check(call.Call.Args[3] == ssa.Value(isClient), "C28.agreed-args", name+" isClient", call, "error labelling follows isClient", "isClient is not forwarded to findCommon")
-		w, known := want[f1]
-		if !known {
-			c.fail("C28.agreed-args", name, call, "KEXINIT field not in the RFC 4253 table of negotiated lists")
-			continue
-		}
-		// destination of result #0
-		var dst *ssa.FieldAddr
-		for _, v := range resultN(call, 0) {
-			for _, r := range *v.Referrers() {
-				if st, ok := r.(*ssa.Store); ok {
-					dst, _ = st.Addr.(*ssa.FieldAddr)
+				for _, k := range []int{4, 5} {
+					if !needed[k] && !common[k] && (culprit < 0 || culprit == k) {
+						t.fail("C28.mac-gate", c28slots[k][0]+" MAC negotiation", fmt.Sprintf("fails for lack of a common %s although the %s cipher %q is an AEAD and needs no MAC (the opposite direction's cipher is %q) — %s", c28fields[k], c28slots[k][0], want[k-2], want[7-k], in))
+						blamed = true
+					}
 				}
-			}
-		}
-		if dst == nil {
-			c.fail("C28.agreed-dest", name, call, "the negotiated value is not stored")
-			continue
-		}
-		_, dfield, dbase, _ := fieldOf(dst)
-		good := dfield == w.field
-		detail := ""
-		switch w.rec {
-		case "result":
-			if typeName(dbase.Type()) != "NegotiatedAlgorithms" {
-				good = false
-			}
-		case "ctos":
-			r1, r0 := recName(dbase, 1), recName(dbase, 0)
-			if r1 != "Write" || r0 != "Read" {
-				good = false
-			}
-			detail = fmt.Sprintf("client: %s, server: %s", r1, r0)
-			recOf["ctos"] = dbase
-		case "stoc":
-			r1, r0 := recName(dbase, 1), recName(dbase, 0)
-			if r1 != "Read" || r0 != "Write" {
-				good = false
-			}
-			detail = fmt.Sprintf("client: %s, server: %s", r1, r0)
-			recOf["stoc"] = dbase
-		}
-		c.check(good, "C28.agreed-dest", name, call, "stored into "+w.rec+"."+w.field+" ("+detail+")",
-			"the negotiated "+f1+" value is stored into the wrong slot/direction: field "+dfield+" "+detail+"; expected "+w.rec+"."+w.field)
-		if strings.HasPrefix(f1, "MACs") {
-			macCalls[w.rec] = call
-		}
-		// failure returns the error
-		fails := callFailure([]ssa.CallInstruction{call}, -1, isNil)
-		okRet := len(fails) > 0
-		for _, e := range fails {
-			blk := e.to()
-			if _, isRet := blk.Instrs[len(blk.Instrs)-1].(*ssa.Return); !isRet {
-				okRet = false
-			}
-		}
-		c.check(okRet, "C28.agreed-fail", name, call, "a failed negotiation returns immediately", "a failed negotiation does not return its error")
-	}
-	// AEAD gates
-	lookups := map[string]*ssa.Lookup{}
-	allInstrs(f, func(in ssa.Instruction) {
-		lk, ok := in.(*ssa.Lookup)
-		if !ok || accessPath(lk.X) != "aeadCiphers" {
-			return
-		}
-		_, fld, base, ok := fieldOf(lk.Index)
-		if !ok || fld != "Cipher" {
-			return
-		}
-		for rec, ptr := range recOf {
-			if base == ptr {
-				lookups[rec] = lk
-			}
-		}
-	})
-	for _, rec := range []string{"ctos", "stoc"} {
-		other := "stoc"
-		if rec == "stoc" {
-			other = "ctos"
-		}
-		call, lk, lko := macCalls[rec], lookups[rec], lookups[other]
-		name := rec + " MAC negotiation"
-		if call == nil || lk == nil || lko == nil {
-			c.fail("C28.mac-gate", name, f, "no aeadCiphers lookup keyed by the "+rec+" cipher guards the "+rec+" MAC negotiation (the gate tests a different direction's cipher, or is missing)")
-			continue
-		}
-		bad := ""
-		for a := int64(0); a < 2; a++ {
-			for b := int64(0); b < 2; b++ {
-				e := newEnv()
-				e.bind(lk, a)
-				e.bind(lko, b)
-				// all findCommon calls succeed
-				for _, ci := range callsFC {
-					for _, ev := range errResult(ci.(*ssa.Call)) {
-						for _, r := range *ev.Referrers() {
-							if bo, ok := r.(*ssa.BinOp); ok && (bo.Op == token.NEQ || bo.Op == token.EQL) {
-								if bo.Op == token.NEQ {
-									e.bind(bo, 0)
-								} else {
-									e.bind(bo, 1)
-								}
+				if !blamed {
+					t.fail("C28.agreed-fail", whole, "fails although every required list pair has a common entry — "+in)
+				}
+			case out.failed:
+				sup, req, ok := c28errLabels(out.err)
+				if !ok {
+					t.fail("C28.agreed-errlabel", whole, "the failure is not reported as *AlgorithmNegotiationError with SupportedAlgorithms and RequestedAlgorithms — "+in)
+					break
+				}
+				good := false
+				for k := range c28fields {
+					own, peer := sc.cl[k], sc.sv[k]
+					if !isClient {
+						own, peer = peer, own
+					}
+					if !common[k] && c28sameList(sup, own) && c28sameList(req, peer) {
+						good = true
+					}
+				}
+				if !good {
+					t.fail("C28.agreed-errlabel", whole, fmt.Sprintf("error says supported %q / requested %q, which is not (own list, peer's list) of a field without common entry for this role — %s", sup, req, in))
+				}
+			default:
+				for k := range c28fields {
+					if out.got[k] == want[k] {
+						continue
+					}
+					slot := slotName(k, isClient)
+					if k == 4 || k == 5 {
+						dir, construct := c28slots[k][0], c28slots[k][0]+" MAC negotiation"
+						switch {
+						case !needed[k]:
+							d := fmt.Sprintf("%s = %q although the %s cipher %q is an AEAD (no MAC is negotiated for AEAD ciphers)", slot, out.got[k], dir, want[k-2])
+							if !c28aead[want[7-k]] {
+								d += fmt.Sprintf(" (the opposite direction's cipher %q is not an AEAD: either the gate looks at the wrong direction or the AEAD table lacks this cipher)", want[7-k])
 							}
+							t.fail("C28.mac-gate", construct, d+" — "+in)
+							continue
+						case out.got[k] == "":
+							d := fmt.Sprintf("%s is empty although the %s cipher %q is not an AEAD; %q must be negotiated", slot, dir, want[k-2], want[k])
+							if c28aead[want[7-k]] {
+								d += fmt.Sprintf(" (the opposite direction's cipher %q is an AEAD: either the gate looks at the wrong direction or its sense is inverted)", want[7-k])
+							}
+							t.fail("C28.mac-gate", construct, d+" — "+in)
+							continue
 						}
 					}
-				}
-				e.solve(f)
-				got := e.reach[call.Block()]
-				want := a == 0
-				if got != want {
-					bad = fmt.Sprintf("aead(%s cipher)=%d aead(%s cipher)=%d: %s MAC negotiated=%v, RFC 4253/AEAD rule requires %v", rec, a, other, b, rec, got, want)
+					d := fmt.Sprintf("%s = %q; RFC 4253 7.1 requires %q, the first entry of the client's %s that the server's %s contains", slot, out.got[k], want[k], c28fields[k], c28fields[k])
+					if sw, ok := c28firstCommon(sc.sv[k], sc.cl[k]); ok && sw == out.got[k] {
+						d += " (the value follows the SERVER's order of preference: client and server lists exchanged)"
+					}
+					for j := range c28fields {
+						if j != k && want[j] == out.got[k] && want[j] != "" {
+							d += fmt.Sprintf(" (this is the value negotiated from %s, which belongs into %s)", c28fields[j], slotName(j, isClient))
+						}
+					}
+					t.fail("C28.agreed-value", c28fields[k], d+" — "+in)
 				}
 			}
 		}
-		c.check(bad == "", "C28.mac-gate", name, call, "negotiated exactly when this direction's cipher is not an AEAD, independent of the other direction (4 cases)", bad)
+		// symmetry, directly on the two computations
+		cli, srv := outs[0], outs[1]
+		in := fmt.Sprintf("client KEXINIT %s, server KEXINIT %s", c28show(sc.cl), c28show(sc.sv))
+		if cli.failed != srv.failed {
+			t.fail("C28.agreed-symmetric", whole, fmt.Sprintf("client fails=%v but server fails=%v — %s", cli.failed, srv.failed, in))
+		} else if !cli.failed && cli.got != srv.got {
+			for k := range c28fields {
+				if cli.got[k] != srv.got[k] {
+					t.fail("C28.agreed-symmetric", whole, fmt.Sprintf("the client puts %q into %s but the server %q into %s — %s", cli.got[k], slotName(k, true), srv.got[k], slotName(k, false), in))
+				}
+			}
+		}
+		return true
 	}
+
+	// family 1: full product of outcomes
+	ok2 := func(p string) [2][2][]string { // {fail, client-preferred wins}
+		return [2][2][]string{{{p + "-a"}, {p + "-b"}}, {{p + "-a", p + "-b"}, {p + "-b", p + "-a"}}}
+	}
+	win := func(x, other string) [2][]string { return [2][]string{{x, other}, {other, x}} }
+	ciph := [][2][]string{
+		win("aes128-ctr", "aes128-gcm@openssh.com"),
+		win("aes128-gcm@openssh.com", "aes128-ctr"),
+		{{"aes128-ctr"}, {"aes256-ctr"}},
+		win("aes256-gcm@openssh.com", "aes128-cbc"),
+		win("chacha20-poly1305@openssh.com", "aes256-ctr"),
+	}
+	pref := [8]string{"kex", "hostkey", "", "", "mac-cs", "mac-sc", "comp-cs", "comp-sc"}
+	var fam [8][][2][]string
+	for k := range c28fields {
+		if k == 2 || k == 3 {
+			fam[k] = ciph
+		} else {
+			o := ok2(pref[k])
+			fam[k] = [][2][]string{o[1], o[0]}
+		}
+	}
+	done := false
+	var product func(k int, sc *c28scenario)
+	product = func(k int, sc *c28scenario) {
+		if done {
+			return
+		}
+		if k == 8 {
+			if !check(sc) {
+				done = true
+			}
+			return
+		}
+		for _, m := range fam[k] {
+			sc.cl[k], sc.sv[k] = m[0], m[1]
+			product(k+1, sc)
+		}
+	}
+	product(0, &c28scenario{})
+	// family 2: every pair of short lists for one field at a time
+	if !done {
+		for _, base := range [][2]int{{0, 1}, {1, 0}} {
+			for k := range c28fields {
+				alpha := []string{pref[k] + "-a", pref[k] + "-b", pref[k] + "-c"}
+				if k == 2 || k == 3 {
+					alpha = []string{"aes128-ctr", "aes128-gcm@openssh.com", "chacha20-poly1305@openssh.com"}
+				}
+				ls := c28lists(alpha, 2)
+				for _, cl := range ls {
+					for _, sv := range ls {
+						if done {
+							break
+						}
+						var sc c28scenario
+						for j := range c28fields {
+							sc.cl[j], sc.sv[j] = fam[j][0][0], fam[j][0][1]
+						}
+						sc.cl[2], sc.sv[2] = ciph[base[0]][0], ciph[base[0]][1]
+						sc.cl[3], sc.sv[3] = ciph[base[1]][0], ciph[base[1]][1]
+						sc.cl[k], sc.sv[k] = cl, sv
+						if !check(&sc) {
+							done = true
+						}
+					}
+				}
+			}
+		}
+	}
+	if undecided != "" {
+		c.undecided("C28.agreed-value", whole, f, "evaluation left the model: "+undecided)
+		return
+	}
+	n := fmt.Sprintf(" (%d evaluations)", runs)
+	for k, name := range c28fields {
+		rec := c28slots[k][0]
+		where := "NegotiatedAlgorithms." + c28slots[k][1]
+		if rec == "ctos" {
+			where = "Write." + c28slots[k][1] + " of a client / Read." + c28slots[k][1] + " of a server"
+		} else if rec == "stoc" {
+			where = "Read." + c28slots[k][1] + " of a client / Write." + c28slots[k][1] + " of a server"
+		}
+		c.check(t.get("C28.agreed-value", name) == "", "C28.agreed-value", name, f, "first entry of the client's "+name+" that the server's "+name+" contains, stored in "+where+n, t.get("C28.agreed-value", name))
+	}
+	for _, dir := range []string{"ctos", "stoc"} {
+		construct := dir + " MAC negotiation"
+		c.check(t.get("C28.mac-gate", construct) == "", "C28.mac-gate", construct, f, "negotiated exactly when this direction's cipher is not an AEAD, independent of the other direction and of the MAC lists when it is"+n, t.get("C28.mac-gate", construct))
+	}
+	for _, name := range c28fields {
+		c.check(t.get("C28.agreed-fail", name) == "", "C28.agreed-fail", name, f, "no common entry in a required negotiation makes the call fail for both roles"+n, t.get("C28.agreed-fail", name))
+	}
+	c.check(t.get("C28.agreed-fail", whole) == "", "C28.agreed-fail", whole, f, "never fails or panics when every required list pair has a common entry"+n, t.get("C28.agreed-fail", whole))
+	c.check(t.get("C28.agreed-errlabel", whole) == "", "C28.agreed-errlabel", whole, f, "a failure names own/peer lists of a field without common entry according to the role"+n, t.get("C28.agreed-errlabel", whole))
+	c.check(t.get("C28.agreed-symmetric", whole) == "", "C28.agreed-symmetric", whole, f, "client and server computations both fail or agree on all eight algorithms with Read/Write exchanged"+n, t.get("C28.agreed-symmetric", whole))
 }
 
-func valName(v ssa.Value) string {
-	if v == nil {
-		return "<nil>"
+func c28show(l [8][]string) string {
+	var sb strings.Builder
+	sb.WriteString("{")
+	for k, name := range c28fields {
+		if k > 0 {
+			sb.WriteString(" ")
+		}
+		fmt.Fprintf(&sb, "%s:%q", name, l[k])
 	}
-	if p, ok := v.(*ssa.Parameter); ok {
-		return p.Name()
-	}
-	return v.Name()
+	sb.WriteString("}")
+	return sb.String()
 }
